@@ -222,10 +222,20 @@ def check_coincident(name, hi, inp, acc):
         acc.violation('numpy_error_state_not_restored', {'fn': 'curvature', 'input': inp}, {'what': 'coincident', 'shape': name, 'heading': hi, 'input': inp, 't': t0})
 
 
-def check_transforms(name, acc):
-    seg = AB.make(name)
+def check_transforms(name, acc, shift=0j, warm=False):
+    """shift: the same shape far from the origin (a handle of length ~1 is then tiny RELATIVE to the
+    coordinates).  warm: the source segment has answered other queries (length, bbox, poly, derivative)
+    before the transformed copy is made - copies must not inherit anything that is stale for them."""
+    seg = AB.make(name, shift=shift)
     kind = type(seg).__name__[0]
-    for t in (0.25, 0.5, 0.7):
+    if warm:
+        with warnings.catch_warnings():
+            warnings.simplefilter('ignore')
+            for q in (lambda: seg.length(), lambda: seg.bbox(), lambda: seg.poly(), lambda: seg.derivative(0.3),
+                      lambda: seg.unit_tangent(0.3), lambda: seg.curvature(0.3), lambda: seg.length(0.1, 0.6)):
+                outcome(q)
+    far = abs(shift) > 0
+    for t in (0.0, 0.25, 0.5, 0.7, 1.0):
         with warnings.catch_warnings():
             warnings.simplefilter('ignore')
             base = outcome(lambda: (complex(seg.unit_tangent(t)), float(seg.curvature(t))))
@@ -237,6 +247,10 @@ def check_transforms(name, acc):
         if not math.isfinite(k0):
             continue
         tr = [('translate', lambda s: s.translated(3 - 2j), lambda u: u, lambda k: k, t),
+              ('scale2', lambda s: s.scaled(2.0), lambda u: u, lambda k: k / 2.0, t),
+              ('scale_half', lambda s: s.scaled(0.5), lambda u: u, lambda k: k * 2.0, t),
+              ('reversed', lambda s: s.reversed(), lambda u: -u, lambda k: k, 1 - t)] if far else \
+             [('translate', lambda s: s.translated(3 - 2j), lambda u: u, lambda k: k, t),
               ('rotate30', lambda s: s.rotated(30, origin=0j), lambda u: u * cmath.exp(1j * math.radians(30)), lambda k: k, t),
               ('rotate200', lambda s: s.rotated(200, origin=1 + 1j), lambda u: u * cmath.exp(1j * math.radians(200)), lambda k: k, t),
               ('scale2', lambda s: s.scaled(2.0), lambda u: u, lambda k: k / 2.0, t),
@@ -244,13 +258,17 @@ def check_transforms(name, acc):
               ('reversed', lambda s: s.reversed(), lambda u: -u, lambda k: k, 1 - t)]
         for tname, f, fu, fk, tt in tr:
             case = {'what': 'transform', 'shape': name, 't': t, 'transform': tname}
+            if far or warm:
+                case.update(shift=core.jz(shift), warm=warm)
             with warnings.catch_warnings():
                 warnings.simplefilter('ignore')
                 r = outcome(lambda: (complex(f(seg).unit_tangent(tt)), float(f(seg).curvature(tt))))
             acc.case(case, cls='transform/%s' % tname, nontrivial=kind != 'L')
             tol = 1e-6 if kind == 'A' else 1e-9
-            if r[0] != 'ok' or abs(r[1][0] - fu(u0)) > tol or abs(r[1][1] - fk(k0)) > 1e-6 * max(1.0, abs(fk(k0))):
-                acc.violation('not_covariant', {'kind': kind, 'transform': tname}, case, observed=r, expected=[fu(u0), fk(k0)])
+            if far:
+                tol = 1e-6       # control-point differences of a curve 4e5 away carry ~1e-10 relative rounding
+            if r[0] != 'ok' or abs(r[1][0] - fu(u0)) > tol or abs(r[1][1] - fk(k0)) > (1e-4 if far else 1e-6) * max(1.0, abs(fk(k0))):
+                acc.violation('not_covariant', {'kind': kind, 'transform': tname, 'far': far, 'warm': warm}, case, observed=r, expected=[fu(u0), fk(k0)])
 
 
 def path_checks(acc):
@@ -336,6 +354,8 @@ def shards(tier, seed):
             for sc in (1e-6, 1e8)]
     out += [{'what': 'coincident', 'shape': n} for n, _, _ in coincident_shapes()]
     out += [{'what': 'transform', 'shape': n} for n in list(AB.LINES) + list(AB.QUADS) + list(AB.CUBICS) + list(AB.ARCS)]
+    out += [{'what': 'transform', 'shape': n, 'warm': True} for n in list(AB.LINES) + list(AB.QUADS) + list(AB.CUBICS) + list(AB.ARCS)]
+    out += [{'what': 'transform', 'shape': n, 'shift': [3.0e5, 2.0e5], 'warm': w} for n in list(AB.QUADS) + list(AB.CUBICS) for w in (False, True)]
     out.append({'what': 'path'})
     out.append({'what': 'joints'})
     if tier == 'thorough':
@@ -362,7 +382,7 @@ def run_shard(desc, tier, seed):
             for inp in ('python', 'numpy', 'rotated'):
                 check_coincident(desc['shape'], hi, inp, acc)
     elif desc['what'] == 'transform':
-        check_transforms(desc['shape'], acc)
+        check_transforms(desc['shape'], acc, shift=complex(*desc.get('shift', [0, 0])), warm=desc.get('warm', False))
     elif desc['what'] == 'joints':
         joint_checks(acc)
     else:
@@ -397,7 +417,7 @@ def replay(case):
         check_coincident(case['shape'], case['heading'], case['input'], acc)
         acc.vlist = [v for v in acc.vlist if v['case'].get('t') == case['t']]
     elif w == 'transform':
-        check_transforms(case['shape'], acc)
+        check_transforms(case['shape'], acc, shift=complex(*case.get('shift', [0, 0])), warm=case.get('warm', False))
         acc.vlist = [v for v in acc.vlist if v['case'].get('t') == case['t'] and v['case'].get('transform') == case['transform']]
     elif w == 'joint':
         joint_checks(acc)
